@@ -291,6 +291,112 @@ fn one(case_seed: u64, miri: bool, rep: &mut Report, cnt: &mut [u64; 16]) {
 
 const OPN: [&str; 13] = ["new_context", "free_context", "resize", "resize_memory", "set", "set_byte", "set_word", "set_u256", "set_data", "copy", "slice", "get_byte", "get_word"];
 
+#[cfg(feature = "clibs")]
+fn memory_lockstep(ctx: &Ctx) -> Report {
+    use crate::world::*;
+    use revm::primitives::{SpecId, U256};
+    let offs: [u64; 8] = [0, 1, 31, 32, 33, 64, 0x100, 0x2000];
+    let lens: [u64; 5] = [0, 1, 32, 33, 0x120];
+    // (opcode, number of operands before the length-like ones) programs: the operands are pushed so
+    // that the instruction sees (a, b, len) / (a, len) / (a) as the EVM defines them
+    let mut cases: Vec<(String, Case)> = vec![];
+    let mut mk = |name: String, code: Vec<u8>, spec: SpecId| {
+        let mut w = World::default();
+        w.accounts.insert(SENDER1, Acct { balance: U256::from(10u64).pow(U256::from(18u8)), ..Default::default() });
+        w.accounts.insert(C1, Acct { nonce: 1, code, ..Default::default() });
+        w.accounts.insert(C2, Acct { nonce: 1, code: vec![0x60, 0x2a, 0x60, 0x00, 0x52, 0x60, 0x40, 0x60, 0x00, 0xf3], ..Default::default() });
+        let tx = TxSpec { to: Some(C1), gas_limit: 300_000, data: vec![0xab; 70], gas_price: U256::from(10u8), ..Default::default() };
+        cases.push((name, Case { spec, world: w, block: BlockSpec::default(), txs: vec![tx] }));
+    };
+    for &first in &[0u64, 0x40] {
+        for &a in &offs {
+            for &b in &offs {
+                for &l in &lens {
+                    // MCOPY(dst=a, src=b, len=l), then a second one on the grown memory
+                    let mut p = Asm::new();
+                    if first > 0 {
+                        p.push_u(1).push_u(first).op(0x52);
+                    }
+                    p.push_u(l).push_u(b).push_u(a).op(0x5e).push_u(l).push_u(a).push_u(b).op(0x5e).op(0x59).op(0x50).op(0x00);
+                    mk(format!("MCOPY/{a}/{b}/{l}/{first}"), p.finish(), SpecId::CANCUN);
+                }
+            }
+            for &l in &lens {
+                for (opn, op, pre) in [("KECCAK256", 0x20u8, 0usize), ("RETURN", 0xf3, 0), ("REVERT", 0xfd, 0), ("LOG0", 0xa0, 0), ("CALLDATACOPY", 0x37, 1), ("CODECOPY", 0x39, 1), ("RETURNDATACOPY", 0x3e, 1)] {
+                    let mut p = Asm::new();
+                    if first > 0 {
+                        p.push_u(1).push_u(first).op(0x52);
+                    }
+                    if opn == "RETURNDATACOPY" {
+                        // make 64 bytes of return data first
+                        p.push_u(0).push_u(0).push_u(0).push_u(0).push_u(0).push_addr(C2).push_u(50_000).op(0xf1).op(0x50);
+                    }
+                    p.push_u(l);
+                    for _ in 0..pre {
+                        p.push_u(3);
+                    }
+                    p.push_u(a).op(op);
+                    if op == 0x20 {
+                        p.op(0x50);
+                    }
+                    p.op(0x59).op(0x50).op(0x00);
+                    mk(format!("{opn}/{a}/{l}/{first}"), p.finish(), SpecId::CANCUN);
+                }
+            }
+            for (opn, op) in [("MLOAD", 0x51u8), ("MSTORE", 0x52), ("MSTORE8", 0x53)] {
+                let mut p = Asm::new();
+                if first > 0 {
+                    p.push_u(1).push_u(first).op(0x52);
+                }
+                if op != 0x51 {
+                    p.push_u(7);
+                }
+                p.push_u(a).op(op);
+                if op == 0x51 {
+                    p.op(0x50);
+                }
+                p.op(0x59).op(0x50).op(0x00);
+                mk(format!("{opn}/{a}/{first}"), p.finish(), SpecId::CANCUN);
+            }
+        }
+    }
+    let cr = &cases;
+    let mut rep = par_shards(ctx, 16, |si, _rng, rep| {
+        for (j, (name, case)) in cr.iter().enumerate() {
+            if j % 16 != si {
+                continue;
+            }
+            rep.count("memory_lockstep_grid_cases");
+            rep.cell("memory_lockstep_grid_opcodes", name.split('/').next().unwrap_or("?"));
+            if super::c01_spec::diff_case_pid("C11", case, rep, name, None, None) {
+                rep.nontrivial(case.hash());
+            }
+        }
+    });
+    // memory-heavy generated programs
+    let n = ctx.n(3_000, 300_000);
+    let r2 = par_shards(ctx, 32, |_si, rng, rep| {
+        for _ in 0..(n / 32).max(1) {
+            let spec = *rng.pick(&[SpecId::FRONTIER, SpecId::BYZANTIUM, SpecId::LONDON, SpecId::CANCUN, SpecId::PRAGUE]);
+            let mut f = Features::all(spec);
+            f.storage = false;
+            f.selfdestruct = false;
+            f.logs = rng.chance(1, 2);
+            f.raw = false;
+            let mut case = gen_case_with(rng, spec, 1, &f);
+            case.txs.truncate(1);
+            rep.count("memory_lockstep_generated_cases");
+            if super::c01_spec::diff_case_pid("C11", &case, rep, "generated/memory-heavy", None, None) {
+                rep.nontrivial(case.hash());
+            }
+        }
+    });
+    rep.merge(r2);
+    // this property owns the memory size and its charge; anything else the comparison finds is C01's
+    rep.violations.retain(|v| v.signature.contains("/lockstep/memory-size/") || v.signature.contains("/lockstep/gas/"));
+    rep
+}
+
 pub fn run(ctx: &Ctx) -> i32 {
     let miri = ctx.lane == "miri";
     let mut rep;
@@ -329,6 +435,12 @@ pub fn run(ctx: &Ctx) -> i32 {
             {
                 let r2 = super::online_props::run_c11_online(ctx);
                 rep.merge(r2);
+                // (C) size and charge of every memory-touching instruction: lock-step against the
+                // reference EVM (memory size and gas left after every instruction) on a directed grid
+                // of (destination, source, length) operands incl. destination == source and ranges
+                // beyond the current size, and on memory-heavy generated programs
+                let r3 = memory_lockstep(ctx);
+                rep.merge(r3);
                 super::online::keep_only(&mut rep, "C11");
                 let calls = rep.counter("events/call");
                 rep.floor("online: call notifications", calls, 2000);
@@ -337,7 +449,7 @@ pub fn run(ctx: &Ctx) -> i32 {
     }
     finish(ctx, rep, Finish {
         level: "exploration",
-        rule: "(A) random histories (5..120 ops) on SharedMemory: new_context/free_context (nesting <= 40), resize, resize_memory with gas (exact quadratic cost 3w + w^2/512 as BigInt-free u128 oracle: verdict, charge, no charge on failure), set/set_byte/set_word/set_u256/set_data (data offsets beyond the data)/copy (overlapping)/slice/get_*, contexts up to 256 KiB, API preconditions respected; oracle Vec<Vec<u8>> after every op plus hook H2 (checkpoint invariants). (B) online on W: first step of every frame sees empty memory, length is a multiple of 32 and never shrinks, and after every child frame the parent's memory is byte-identical outside the return window and equal to the return data inside it. Non-trivial: every history / case as in W.".into(),
+        rule: "(A) random histories (5..120 ops) on SharedMemory: new_context/free_context (nesting <= 40), resize, resize_memory with gas (exact quadratic cost 3w + w^2/512 as BigInt-free u128 oracle: verdict, charge, no charge on failure), set/set_byte/set_word/set_u256/set_data (data offsets beyond the data)/copy (overlapping)/slice/get_*, contexts up to 256 KiB, API preconditions respected; oracle Vec<Vec<u8>> after every op plus hook H2 (checkpoint invariants). (B) online on W: first step of every frame sees empty memory, length is a multiple of 32 and never shrinks, and after every child frame the parent's memory is byte-identical outside the return window and equal to the return data inside it. (C) lock-step against the reference EVM (memory size and gas left after every instruction): a directed grid of MCOPY (destination x source x length incl. destination == source and ranges beyond the current size, twice in a row), KECCAK256 / RETURN / REVERT / LOG0 / CALLDATACOPY / CODECOPY / RETURNDATACOPY / MLOAD / MSTORE / MSTORE8 over offsets {0,1,31,32,33,64,0x100,0x2000} and lengths {0,1,32,33,0x120}, on empty and on already grown memory, plus memory-heavy generated programs. Non-trivial: every history / case as in W.".into(),
         assumptions: vec!["out-of-bounds slice/set are documented caller errors (resize_memory! precedes every access) and are not generated".into()],
     })
 }
